@@ -48,15 +48,29 @@ THOROUGH_THREADS = [1, 2, 7, 16]
 
 
 def regen(ctx):
-    ctx.fp = ctx.translate(footprints.footprints)
+    from lib.vlib import TieBroken
+    try:
+        ctx.fp = footprints.footprints(ctx)
+    except TieBroken as e:      # say WHICH store is not race free in the BROKEN line itself
+        ctx.fp = None
+        msg = str(e)
+        what = "translator footprints failed closed"
+        if "UNSOUND class" in msg:
+            what = "footprints: a store inside a prange loop is in an UNSOUND class -- " + msg[:330]
+        ctx.problem("tie", what, msg)
+    except Exception:
+        import traceback
+        ctx.fp = None
+        ctx.problem("tie", "translator footprints crashed", traceback.format_exc())
 
 
 def _start_thread_runs(ctx, strength):
     """Fresh process per thread count, started in the background (JIT dominates: ~80 s each)."""
     # "escalated": a quick-tier run in which a tie/proof/correspondence broke -- all four thread counts, but without the
     # two slowest kernel families to JIT (hypersingular, Maxwell), so that the verdict arrives in minutes
-    fams = {"quick": ["laplace_sl_only", "potential"], "escalated": ["laplace_sl", "identity", "potential"]}.get(
-        strength, ["laplace_sl", "identity", "potential", "hypersingular", "maxwell"])
+    fams = {"quick": ["laplace_sl_only", "potential", "identity_p1", "fmm_near"],
+            "escalated": ["laplace_sl", "identity", "potential", "fmm_near"]}.get(
+        strength, ["laplace_sl", "identity", "potential", "fmm_near", "hypersingular", "maxwell"])
     counts = QUICK_THREADS if strength == "quick" else THOROUGH_THREADS
     res = {}
 
@@ -150,6 +164,15 @@ def search(ctx, strength):
                 ctx.failure("C16:not-repeatable:" + name.split("(")[0],
                             "%s assembled twice in one process with %d threads gives different bytes" % (name, n),
                             {"operator": name, "threads": n, "hashes": hs})
+        # (b) built under one thread count, applied under another, inside this process
+        for name, v in (r.get("variants") or {}).items():
+            ctx.search_info["evaluations"] += len(v)
+            if len(set(v.values())) > 1:
+                ctx.failure("C16:build-apply-thread-count:" + name.split("(")[0].strip(),
+                            "%s: results differ bitwise inside one process (NUMBA_NUM_THREADS=%d) depending on the thread "
+                            "count at build time / at application time (numba.set_num_threads)" % (name, n),
+                            {"operator": name, "process_threads": n, "hash_by_build_and_apply_thread_count": v,
+                             "replay": "harness/c16_threads.py families containing this operator, NUMBA_NUM_THREADS=%d" % n})
         if ref is None:
             ref = (n, r["hashes"])
             continue
